@@ -411,6 +411,19 @@ fn resize_stream<F: Read + Write + Seek>(
     stream_id: u32,
     new_stream_len: u64,
 ) -> io::Result<()> {
+    // A FAT cannot address more than MAX_REGULAR_SECTOR sectors, so no stream
+    // can be longer than that many sectors.  Refuse such a length before
+    // anything is changed (and before rounding it up to whole sectors could
+    // overflow).
+    let max_stream_len = consts::MAX_REGULAR_SECTOR as u64
+        * minialloc.version().sector_len() as u64;
+    if new_stream_len > max_stream_len {
+        invalid_input!(
+            "Cannot set stream length to {} bytes (maximum is {} bytes)",
+            new_stream_len,
+            max_stream_len
+        );
+    }
     let (old_start_sector, old_stream_len) = {
         let dir_entry = minialloc.dir_entry(stream_id);
         debug_assert_eq!(dir_entry.obj_type, ObjType::Stream);
